@@ -108,9 +108,17 @@ def run (line : String) : String :=
     | _ => "bad-op"
   | _ => "bad-op"
 
+/-- `seq x1 x2 …` → what Seq/ToSeq give in the model: `<cap> <len> | <ToSeq (Seq xs)> | <closed>` -/
+def seqLine (xs : List Int) : String :=
+  let ch := seqChan xs
+  s!"{ch.cap} {ch.buf.length} | {showInts (toSeq ch)} | {ch.closed}"
+
 /-- line: `<idx> <script> || <obs>` → `<idx> ok` / `<idx> MISMATCH …` -/
 def step (line : String) : String :=
   match line.splitOn " " with
+  | "seq" :: rest => match ints (rest.filter (· ≠ "")) with
+    | some xs => seqLine xs
+    | none => "bad-op"
   | idx :: rest => idx ++ " " ++ run (" ".intercalate rest)
   | _ => "bad-op"
 
